@@ -67,3 +67,25 @@ index_left_harness!(c11_index_left_9, 9);
 harness!(c20_add_days_total, 6, |a: u8, days: i8, mk_: u8, st: bool| pre pre_tot(a, mk_), chk chk_add_days_total(a, days, mk_, st), cover days == 127);
 harness!(c20_add_bus_days_total, 130, |a: u8, days: i8, st: bool| pre pre_tot(a, 0), chk chk_add_bus_days_total(a, days, st), cover days == -128);
 harness!(c20_lag_total, 130, |a: u8, days: i8, st: bool| pre pre_tot(a, 0), chk chk_lag_total(a, days, st), cover days == 127);
+
+
+// IEEE-exact harnesses: inputs are raw 64-bit patterns; `RandomState::new` (getrandom) is stubbed with a fixed key,
+// which is sound here because no clause depends on hash values (the numbers carry no variables).
+pub fn stub_rs() -> std::hash::RandomState { unsafe { std::mem::zeroed() } }
+macro_rules! harness_f {
+    ($name:ident, $unwind:expr, |$($v:ident : $t:ty),*| pre $pre:expr, chk $chk:expr, cover $cov:expr) => {
+        #[kani::proof]
+        #[kani::unwind($unwind)]
+        #[kani::stub(std::hash::RandomState::new, stub_rs)]
+        fn $name() {
+            $(let $v: $t = kani::any();)*
+            kani::assume($pre);
+            kani::cover!($cov, "vacuity witness");
+            let r: Result<(), &'static str> = $chk;
+            assert!(r.is_ok(), "property");
+        }
+    };
+}
+harness_f!(c19_ord_ieee_dual, 4, |xb: u64, yb: u64| pre true, chk chk_ord_dual(xb, yb), cover xb == 0x8000_0000_0000_0000 && yb == 0);
+harness_f!(c19_ord_ieee_dual2, 4, |xb: u64, yb: u64| pre true, chk chk_ord_dual2(xb, yb), cover xb == 0x7ff8_0000_0000_0000 && yb == 0x3ff0_0000_0000_0000);
+harness_f!(c19_ord_ieee_number, 4, |xb: u64, yb: u64, ka: u8, kb: u8| pre pre_ord_number(ka, kb), chk chk_ord_number(xb, yb, ka, kb), cover ka == 2 && kb == 0 && xb == 0x8000_0000_0000_0000 && yb == 0);
